@@ -4,6 +4,8 @@ package main
 // tree and the test suite's own transfers) and the generated workload per tier.
 
 import (
+	"fmt"
+	"os"
 	"strconv"
 	"strings"
 	"sync"
@@ -114,6 +116,42 @@ func (x *runner) corpus() {
 			{Op: "write", SID: "a", Accept: true},
 			{Op: "closel", SID: "a"},
 			{Op: "write", SID: "a", Accept: true}}},
+		// one session id, several streams: a redundant Close on the old connection
+		// must not touch the new stream
+		{Events: []evJ{{Op: "openl", SID: "x", BS: 8, Accept: true},
+			{Op: "data", SID: "x", IQ: true, Seq: "0", Data: d64("QUJD")},
+			{Op: "read", SID: "x", N: 64}, {Op: "closel", SID: "x"},
+			{Op: "openl", SID: "x", BS: 8, Accept: true},
+			{Op: "closel", SID: "x", H: 1},
+			{Op: "data", SID: "x", IQ: true, Seq: "0", Data: d64("REVG")},
+			{Op: "read", SID: "x", H: 2, N: 64},
+			{Op: "closel", SID: "x", H: 1},
+			{Op: "data", SID: "x", IQ: false, Seq: "1", Data: d64("R0hJ")},
+			{Op: "read", SID: "x", H: 2, N: 64}, {Op: "read", SID: "x", H: 1, N: 64},
+			{Op: "closer", SID: "x"}, {Op: "read", SID: "x", H: 2, N: 4}}},
+		{Events: []evJ{{Op: "openr", SID: "x", BS: 8, Listening: true},
+			{Op: "data", SID: "x", IQ: true, Seq: "0", Data: d64("QUJD")},
+			{Op: "closer", SID: "x"},
+			{Op: "openr", SID: "x", BS: 4, Listening: true, Stanza: "message"},
+			{Op: "closel", SID: "x", H: 1},
+			{Op: "data", SID: "x", IQ: false, Seq: "0", Data: d64("REVG")},
+			{Op: "read", SID: "x", H: 2, N: 64}, {Op: "read", SID: "x", H: 1, N: 64}, {Op: "read", SID: "x", H: 1, N: 64}}},
+		// the peer reopens the session id while Close still waits for its answer
+		{Events: []evJ{{Op: "openl", SID: "x", BS: 8, Accept: true},
+			{Op: "data", SID: "x", IQ: true, Seq: "0", Data: d64("QUJD")},
+			{Op: "closel", SID: "x", Reopen: true, BS: 8},
+			{Op: "data", SID: "x", IQ: true, Seq: "0", Data: d64("REVG")},
+			{Op: "read", SID: "x", H: 2, N: 64},
+			{Op: "closel", SID: "x", H: 1},
+			{Op: "data", SID: "x", IQ: true, Seq: "1", Data: d64("R0hJ")},
+			{Op: "read", SID: "x", H: 2, N: 64}, {Op: "read", SID: "x", H: 1, N: 64}, {Op: "read", SID: "x", H: 1, N: 64}}},
+		// a second stream under a session id that is still in use takes the id over
+		{Events: []evJ{{Op: "openl", SID: "x", BS: 8, Accept: true},
+			{Op: "openr", SID: "x", BS: 8, Listening: true},
+			{Op: "data", SID: "x", IQ: true, Seq: "0", Data: d64("QUJD")},
+			{Op: "closel", SID: "x", H: 1},
+			{Op: "data", SID: "x", IQ: true, Seq: "1", Data: d64("REVG")},
+			{Op: "read", SID: "x", H: 2, N: 64}, {Op: "read", SID: "x", H: 1, N: 64}}},
 		// nobody listens
 		{Events: []evJ{{Op: "openr", SID: "a", BS: 8, Listening: false},
 			{Op: "data", SID: "a", IQ: true, Seq: "0", Data: d64("QUJD")}, {Op: "closer", SID: "a"}}},
@@ -161,7 +199,13 @@ func (x *runner) corpus() {
 	}
 	for _, c := range scheds {
 		x.runSched(c, "corpus")
+		c.Msg = true
+		x.runSched(c, "corpus")
 	}
+	// a reader parked in Read before a message-carrier packet arrives, the stream
+	// staying open: the bytes must come out of Read without any close
+	x.runSched(schedCase{Msg: true, Labels: []labJ{{L: "start", N: 8}, {L: "wait"}, {L: "deliver", D: ab}, {L: "resume"},
+		{L: "start", N: 8}, {L: "wait"}, {L: "deliver", D: ab}, {L: "resume"}, {L: "start", N: 8}, {L: "wait"}, {L: "deliver", D: ab}, {L: "resume"}}}, "corpus")
 	x.runPipe(pipeCase{Seed: 7, BS: 5, Acked: false, AB: 117, BA: 53, CloserA: true}, "corpus")
 	x.runPipe(pipeCase{Seed: 8, BS: 0, Acked: true, AB: 5000, BA: 3000, CloserA: false}, "corpus")
 	x.runPipe(pipeCase{Seed: 9, BS: 4, Acked: true, AB: 40, BA: 33, CloserA: true, SeqAB: 65534, SeqBA: 65535}, "corpus")
@@ -170,31 +214,58 @@ func (x *runner) corpus() {
 func (x *runner) generated() {
 	th := x.o.Thorough()
 	nSend, nRecv, nSchedRand, schedLen, nPipe, pipeMax, sendBudget := 140, 160, 120, 4, 24, 6000, 5000
+	nReuse := 80
+	if th {
+		nReuse = 500
+	}
 	if th {
 		nSend, nRecv, nSchedRand, schedLen, nPipe, pipeMax, sendBudget = 800, 1500, 1200, 5, 100, 40000, 20000
 	}
 	if x.o.Search {
 		nSend, nRecv, nSchedRand, nPipe = nSend*4, nRecv*4, nSchedRand*4, nPipe*3
 	}
+	t0 := time.Now()
+	lap := func(what string) {
+		if os.Getenv("C15_TIMING") != "" {
+			fmt.Fprintf(os.Stderr, "timing %-10s %v\n", what, time.Since(t0).Round(time.Millisecond))
+		}
+		t0 = time.Now()
+	}
 	x.runRaces()
+	lap("races")
 	for i := 0; i < nSend; i++ {
 		x.runSender(genSender(x.r, sendBudget), "generated")
 	}
+	lap("sender")
 	for i := 0; i < nRecv; i++ {
 		x.runReceiver(genReceiver(x.r), "generated")
 	}
+	lap("receiver")
+	for i := 0; i < nReuse; i++ {
+		x.runReceiver(genReuse(x.r), "reuse")
+	}
+	lap("reuse")
 	for n := 1; n <= schedLen; n++ {
 		for _, c := range enumSched(n) {
+			x.runSched(c, "exhaustive")
+			c.Msg = true
 			x.runSched(c, "exhaustive")
 		}
 	}
 	for i := 0; i < nSchedRand; i++ {
-		x.runSched(genSched(x.r), "generated")
+		sc := genSched(x.r)
+		sc.Msg = i%2 == 1
+		x.runSched(sc, "generated")
+	}
+	lap("sched")
+	if os.Getenv("C15_TIMING") != "" {
+		fmt.Fprintf(os.Stderr, "sched iq %v message %v syncs %d %v\n", schedDur[0], schedDur[1], syncN, syncDur)
 	}
 	x.dropRig()
 	for i := 0; i < nPipe; i++ {
 		x.runPipe(genPipe(x.r, pipeMax), "generated")
 	}
+	lap("pipe")
 	if th {
 		// a genuine pass over the 65536-packet boundary, both carriers
 		var ops []opJ
